@@ -9,10 +9,11 @@ OBL = []
 
 
 def add(name, crate, fn, args="", props=(), unwind=None, tier="quick", stubs=("fmt",),
-        bounded=None, domain="", features=("std",), timeout=900, functions=()):
+        bounded=None, domain="", features=("std",), timeout=900, functions=(), kani_flags=()):
     OBL.append(dict(name=name, crate=crate, fn=fn, args=args, props=list(props), unwind=unwind,
                     tier=tier, stubs=list(stubs), bounded=bounded, domain=domain,
-                    features=list(features), timeout=timeout, functions=list(functions)))
+                    features=list(features), timeout=timeout, functions=list(functions),
+                    kani_flags=list(kani_flags)))
 
 
 L = "crate::verif_obl_leaf::"
@@ -40,6 +41,32 @@ add("leaf_char_lookup", "adsb_deku", L + "obl_char_lookup", props=["C08"], stubs
     domain="all 64 character codes", functions=["CHAR_LOOKUP"])
 add("leaf_sign_value", "adsb_deku", L + "obl_sign_value", props=["C07"], stubs=[],
     domain="both sign values", functions=["Sign::value"])
+
+F = "crate::verif_obl_frame::"
+
+# ---- E-F payload level: ME / MB readers, first payload byte concrete, rest symbolic ---------
+FAST = ["-Z", "unstable-options", "--no-assertion-reach-checks", "--no-memory-safety-checks"]
+
+
+def me_props(_tc):
+    return (["C10", "C04", "C01", "C02", "C20"] + {19: ["C07"], 28: ["C09"]}.get(_tc, []) + (["C08"] if 1 <= _tc <= 4 else [])
+            + (["C06"] if (9 <= _tc <= 18 or 20 <= _tc <= 22) else []))
+
+
+# quick: every type code; all 8 values of ME bits 6-8 where they select a variant or an enum
+# (19 subtype, 28 subtype, 29 subtype/SIL, 31 subtype), two corner values elsewhere.
+# thorough: all 256 values of the first payload byte.
+for _tc in range(32):
+    _full = _tc in (19, 28, 29, 31)
+    _qmask = 0xff if _full else 0x21 if _tc not in (11, 5) else 0xa5
+    add("me_tc%02d" % _tc, "adsb_deku", F + "obl_me", args="%d, 0x%02x" % (_tc, _qmask), props=me_props(_tc),
+        unwind=10, domain="ME type code %d x ME bits 6-8 in mask 0x%02x x all 2^48 remaining ME bits x 2^24 trailer" % (_tc, _qmask),
+        functions=["adsb::ME::from_reader_with_ctx (real derive expansion)"], timeout=1500, kani_flags=FAST,
+        features=("std", "alloc") if _tc in (0, 4, 11, 19, 28, 29, 31) else ("std",))
+    if _qmask != 0xff:
+        add("me_tc%02d_rest" % _tc, "adsb_deku", F + "obl_me", args="%d, 0x%02x" % (_tc, 0xff & ~_qmask), props=me_props(_tc),
+            unwind=10, tier="thorough", domain="ME type code %d x remaining values of ME bits 6-8 (mask 0x%02x) x all other bits" % (_tc, 0xff & ~_qmask),
+            functions=["adsb::ME::from_reader_with_ctx (real derive expansion)"], timeout=2400, kani_flags=FAST)
 
 
 def select(prop, tier):
